@@ -5,8 +5,16 @@ sys.path.insert(0, os.path.join(os.path.dirname(os.path.abspath(__file__)), 'har
 import monitors as M
 import check as C
 
+THOROUGH_SCALE = int(os.environ.get('VERIF_THOROUGH_SCALE', '4'))
+
 def q(run, quick, thorough):
-    return thorough if run.tier == 'thorough' else quick
+    """size of a script family per tier; the thorough counts are multiplied by VERIF_THOROUGH_SCALE
+    (default 4; counts only - step widths and value lists are taken as they are)"""
+    if run.tier != 'thorough':
+        return quick
+    if isinstance(thorough, int) and not isinstance(thorough, bool) and thorough >= 50:
+        return thorough * THOROUGH_SCALE
+    return thorough
 
 PRIORS_Q = [0x00, 0xff, 0xaa, 0x55, 0x01, 0x80, 0x08, 0x10]
 PRIORS_T = list(range(256))
